@@ -252,53 +252,151 @@ def _documented_names(res, index, data):
                             f"omits keys {sorted(keys - listed)}")
 
 
+def _keys_in_order(node, param, env):
+    """is `node` the keys of the mapping `param` in iteration (file) order?   finite idiom grammar
+       K ::= param | param.keys() | list(K) | tuple(K) | [*K] | (*K,) | [v for v in K] | <local bound to K>"""
+    if isinstance(node, ast.Name):
+        if node.id == param:
+            return True
+        if node.id in env:
+            return _keys_in_order(env[node.id], param, env)
+        return False
+    if isinstance(node, ast.Call):
+        f = node.func
+        if isinstance(f, ast.Attribute) and f.attr == "keys" and not node.args:
+            return isinstance(f.value, ast.Name) and (f.value.id == param or _keys_in_order(f.value, param, env))
+        if isinstance(f, ast.Name) and f.id in ("list", "tuple") and len(node.args) == 1 and not node.keywords:
+            return _keys_in_order(node.args[0], param, env)
+        return False
+    if isinstance(node, (ast.List, ast.Tuple)) and len(node.elts) == 1 and isinstance(node.elts[0], ast.Starred):
+        return _keys_in_order(node.elts[0].value, param, env)
+    if isinstance(node, ast.ListComp) and len(node.generators) == 1:
+        g = node.generators[0]
+        if not g.ifs and isinstance(g.target, ast.Name) and isinstance(node.elt, ast.Name) and node.elt.id == g.target.id:
+            return _keys_in_order(g.iter, param, env)
+    return False
+
+
 def _loader(res, index):
+    """LOAD-1..3, decided on the inlined abstract run of the loader methods (from_gsd_type_shapes opaque)."""
+    from ..index import FuncInfo
+    from ..interp import Interp
     mod = index.module("coxeter.families.tabulated_shape_family")
     cls = mod.classes.get("TabulatedGSDShapeFamily")
     if cls is None:
         raise AnalysisError("anchor vanished: TabulatedGSDShapeFamily")
     where = f"{mod.relpath}"
-
-    def src(fn):
-        return ast.unparse(fn.node) if fn is not None else ""
-
+    cfg = {"opaque_functions": ("from_gsd_type_shapes",)}
     init = cls.methods.get("__init__")
-    names_ok = False
-    data_ok = False
-    if init:
-        for n in ast.walk(init.node):
-            if isinstance(n, ast.Assign) and ast.unparse(n.targets[0]) == "self._shape_names":
-                names_ok = ast.unparse(n.value).replace(" ", "") in ("[*data.keys()]", "list(data.keys())", "list(data)", "[*data]")
-            if isinstance(n, ast.Assign) and ast.unparse(n.targets[0]) == "self._data":
-                data_ok = ast.unparse(n.value) == "data"
-    pn = cls.props.get("names")
-    pd = cls.props.get("data")
-    names_ok = names_ok and pn is not None and "return self._shape_names" in src(pn.getter)
-    data_ok = data_ok and pd is not None and "return self._data" in src(pd.getter)
-    _v(res, names_ok, "LOAD-1", "names = key list of the loaded mapping in file order", where)
-    _v(res, data_ok, "LOAD-1", "data is the loaded mapping itself", where)
-    it = cls.methods.get("__iter__")
-    ok = False
-    if it:
-        for n in ast.walk(it.node):
-            if isinstance(n, ast.For) and ast.unparse(n.iter) in ("self.names", "self._shape_names") and isinstance(n.target, ast.Name):
-                var = n.target.id
-                ys = [y for y in ast.walk(n) if isinstance(y, ast.Yield)]
-                if len(ys) == 1 and ast.unparse(ys[0].value).replace(" ", "") == f"({var},self.get_shape({var}))":
-                    ok = True
-    _v(res, ok, "LOAD-1", "__iter__ yields (key, get_shape(key)) for key in names", where)
     gs = cls.methods.get("get_shape")
-    ok = False
-    if gs:
-        p = gs.params[1] if len(gs.params) > 1 else None
-        rets = [n for n in ast.walk(gs.node) if isinstance(n, ast.Return)]
-        ok = len(rets) == 1 and ast.unparse(rets[0].value).replace(" ", "") == f"from_gsd_type_shapes(self.data[{p}])"
-    _v(res, ok, "LOAD-1", "get_shape(name) = from_gsd_type_shapes(self.data[name]) (KeyError for unknown names)", where)
+    itf = cls.methods.get("__iter__")
     fj = cls.methods.get("_from_json_file")
+    pn, pd = cls.props.get("names"), cls.props.get("data")
+    for nm, x in (("__init__", init), ("get_shape", gs), ("__iter__", itf), ("_from_json_file", fj), ("names", pn), ("data", pd)):
+        if x is None:
+            raise AnalysisError(f"anchor vanished: TabulatedGSDShapeFamily.{nm}")
+    dparam = init.params[1] if len(init.params) > 1 else None
+
+    def attr_of(prop):
+        r_ = Interp(index).run_entry(prop.getter, cls)
+        v_ = r_["result"]
+        locs = {a for (o, a) in (v_.al if v_ is not None else ()) if o == "self"}
+        return locs.pop() if len(locs) == 1 else None
+
+    names_attr, data_attr = attr_of(pn), attr_of(pd)
+    r0 = Interp(index).run_entry(init, cls)
+    w0 = {e.loc[1]: e for e in r0["events"] if e.type == "write" and e.loc[0] == "self"}
+    # ---- data is the loaded mapping
+    e = w0.get(data_attr)
+    data_ok = e is not None and e.rhs is not None and (("param", dparam) in e.rhs.al or (e.rhs.pdeps == {dparam} and ("ret", "builtins.dict") in e.rhs.tags))
+    _v(res, data_ok, "LOAD-1", "data is the loaded mapping itself", where)
+    # ---- names = keys in file order
+    env = {}
+    names_ok = False
+    for n in init.node.body:
+        if isinstance(n, ast.Assign) and len(n.targets) == 1:
+            t = n.targets[0]
+            if isinstance(t, ast.Name):
+                env[t.id] = n.value
+            elif isinstance(t, ast.Attribute) and isinstance(t.value, ast.Name) and t.value.id == "self" and t.attr == names_attr:
+                names_ok = _keys_in_order(n.value, dparam, env)
+    _v(res, names_ok and names_attr is not None, "LOAD-1", "names = key list of the loaded mapping in file order", where)
+
+    def shared_writes(r_):
+        out = []
+        for e_ in r_["events"]:
+            if e_.type == "write" and (e_.loc[0].startswith("class:")):
+                out.append((e_, f"class attribute {e_.loc[1]}"))
+            elif e_.type == "global-write":
+                out.append((e_, f"module-level `{e_.name}`"))
+        return out
+
+    # ---- get_shape
+    it1 = Interp(index, config=cfg)
+    r1 = it1.run_entry(gs, cls)
+    what = "get_shape(name) = from_gsd_type_shapes(self.data[name]) (KeyError for unknown names)"
+    sw = shared_writes(r1)
+    if sw:
+        res.bad("LOAD-2", "get_shape:shared-state", sw[0][0].where(), f"get_shape writes {sw[0][1]}, one object shared by every tabulated family: "
+                "a name looked up in one family is then answered by all others instead of raising KeyError")
+    else:
+        res.ok("LOAD-2", "get_shape writes no state shared between families")
+    calls = [e_ for e_ in r1["events"] if e_.type == "opaque-call" and e_.callee.name == "from_gsd_type_shapes"]
+    rets = [v_ for (v_, _s, _n) in r1["returns"]]
+    name_p = gs.params[1] if len(gs.params) > 1 else None
+    if not rets:
+        raise AnalysisError("get_shape has no normal return")
+    direct = all(("ret", "from_gsd_type_shapes") in v_.tags for v_ in rets)
+    if not direct or not calls:
+        if any(v_.is_none() if hasattr(v_, "is_none") else (v_.has_const() and v_.const is None) for v_ in rets):
+            _v(res, False, "LOAD-1", what, where)
+        elif sw:
+            res.not_in_fragment.append("LOAD-1 get_shape: value returned through the shared cache reported under LOAD-2")
+        else:
+            raise AnalysisError("get_shape: the returned value is not directly the result of from_gsd_type_shapes (outside the decided fragment)")
+    else:
+        ok = True
+        for c_ in calls:
+            a_ = c_.args[0] if c_.args else (c_.kwargs.get("params") if c_.kwargs else None)
+            if a_ is None:
+                ok = False
+                continue
+            item = [t for t in a_.tags if isinstance(t, tuple) and t[0] == "item-of"]
+            ok = ok and bool(item) and all(("self", data_attr) in t[1] for t in item) and a_.pdeps == {name_p} \
+                and {d for d in a_.deps if d[0] != "call"} <= {("self", data_attr), ("param", name_p)}
+        _v(res, ok, "LOAD-1", what, where)
+    # ---- __iter__
+    it2 = Interp(index, config=cfg)
+    r2 = it2.run_entry(itf, cls)
+    what = "__iter__ yields (key, get_shape(key)) for key in names"
+    own = [e_ for e_ in r2["events"] if e_.type == "write" and e_.loc[0] == "self" and not any("get_shape" in p_ for p_ in e_.path)]
+    sw = [x for x in shared_writes(r2) if not any("get_shape" in p_ for p_ in x[0].path)]
+    v2 = r2["result"]
+    if own or sw or (v2 is not None and v2.obj is not None and v2.obj.oid == "self"):
+        ev_ = (own or [x[0] for x in sw] or [None])[0]
+        res.bad("LOAD-3", "__iter__:state", ev_.where() if ev_ is not None else where, "__iter__ keeps the iteration position on the family object "
+                "(or returns the family itself): two overlapping passes over one family share it and each sees only part of the names")
+    else:
+        res.ok("LOAD-3", "__iter__ keeps no iteration state on the family")
     ok = False
-    if fj:
-        s = src(fj)
-        ok = "open(filename)" in s and "json.load(f)" in s and "cls(data=json.load(f))" in s.replace(" ", "").replace("cls(data=json.load(f))", "cls(data=json.load(f))")
+    if v2 is not None and v2.kind == "gen" and v2.elem is not None and v2.elem.items and len(v2.elem.items) == 2:
+        k_, s_ = v2.elem.items
+        gcalls = [e_ for e_ in r2["events"] if e_.type == "enter" and not e_.entry and e_.callee.name == "get_shape"]
+        same = bool(gcalls) and all(e_.argvals and it2.val_id(e_.argvals[0]) == it2.val_id(k_) for e_ in gcalls)
+        ok = ("self", names_attr) in k_.deps and not k_.pdeps and ("ret", "get_shape") in s_.tags and same
+    _v(res, ok, "LOAD-1", what, where)
+    # ---- _from_json_file
+    it3 = Interp(index, config=cfg)
+    r3 = it3.run_entry(fj, cls)
+    fparam = fj.params[1] if len(fj.params) > 1 else None
+    ok = False
+    for e_ in r3["events"]:
+        if e_.type == "construct" and e_.cls is cls:
+            a_ = e_.kwargs.get(dparam) if e_.kwargs and dparam in e_.kwargs else (e_.args[0] if e_.args else None)
+            if a_ is not None and ("ret", "json.load") in a_.tags and a_.pdeps == {fparam}:
+                ok = True
+    v3 = r3["result"]
+    ok = ok and v3 is not None and v3.obj is not None and v3.obj.cls is cls
     _v(res, ok, "LOAD-1", "_from_json_file builds the family from json.load of the given file", where)
 
 
